@@ -581,6 +581,10 @@ class LatestCbStart(LatestNode):
                 Clause('C14.delivered_positions_strictly_increase', ['C14'], fn=strictly_newer, when='yield:2',
                        kind='protocol', note='J3: subsequence in the original order, nothing delivered twice'),
                 Clause('C10.slot_metadata_travels', ['C10'], when='yield:2', text='emitted_md == [self.next_metadata]'),
+                Clause('C14.slot_is_consumed_before_the_element_is_handed_downstream', ['C14', 'C01'], when='yield:2',
+                       fn=TimedWindowUniqueCbTick.reentrancy(self),
+                       note='re-entrancy: an element arriving from inside the delivery call (feedback) must find the slot already '
+                            'emptied, otherwise it is wiped when the slot is cleared afterwards'),
                 ] + self.inv_clauses('normal') + self.segment_clauses()
 
 
